@@ -262,4 +262,34 @@ theorem runH_direct : ∀ (es : List HEv) (s s' : HSt),
             simp only [Option.map_some, List.append_assoc]
             exact ih1
 
+/-! ### re-use -/
+
+theorem instCalls_pure : ∀ (σs : List (String → Option Int)) (t : List TInstr),
+    instCalls instCall t σs = (σs.map (fun σ => instantiate? σ t), t) := by
+  intro σs
+  induction σs with
+  | nil => intro t; rfl
+  | cons σ σs ih => intro t; simp only [instCalls, instCall, ih, List.map_cons]
+
+theorem instOp?_total (σ : String → Int) (o : TOperand) :
+    instOp? (fun n => some (σ n)) o = some (instOp σ o) := by
+  cases o <;> rfl
+
+theorem mapM_instOp?_total (σ : String → Int) : ∀ (os : List TOperand),
+    os.mapM (instOp? (fun n => some (σ n))) = some (os.map (instOp σ)) := by
+  intro os
+  induction os with
+  | nil => rfl
+  | cons o os ih => simp [List.mapM_cons, instOp?_total, ih]
+
+/-- with a complete σ the partial instantiation is the total one of `instantiate` -/
+theorem instantiate?_total (σ : String → Int) : ∀ (t : List TInstr),
+    instantiate? (fun n => some (σ n)) t = some (instantiate σ t) := by
+  intro t
+  induction t with
+  | nil => rfl
+  | cons i is ih =>
+    simp only [instantiate?, List.mapM_cons, instInstr?, mapM_instOp?_total] at ih ⊢
+    simp [ih, instantiate]
+
 end NQ.Tpl
